@@ -104,6 +104,9 @@ impl Database {
         for stmt in stmts {
             let mut binder = crate::binder::Binder::new(self.catalog.clone());
             let mut plan = binder.bind(stmt.clone()).map_err(|e| e.with_sql(&sql))?;
+            // the binder has consulted the catalog; execution has not started
+            #[cfg(risinglight_verif)]
+            crate::verif::point("db.bound", "").await;
             if self.handle_set(&plan)? {
                 continue;
             }
@@ -204,6 +207,20 @@ impl Database {
 /// Verification hooks (see /verif): access to the pieces `run` is made of.
 #[cfg(risinglight_verif)]
 impl Database {
+    /// An on-disk database whose compactor and vacuum tasks are NOT spawned: passes are driven
+    /// explicitly through `SecondaryStorage::verif_compact_once` / `verif_vacuum_once`.
+    /// (`shutdown` must not be called on it; drop it instead.)
+    pub async fn verif_new_on_disk_nobg(
+        options: SecondaryStorageOptions,
+    ) -> Result<Self, crate::storage::TracedStorageError> {
+        let storage = Arc::new(SecondaryStorage::open(options).await?);
+        Ok(Database {
+            catalog: storage.catalog().clone(),
+            storage: StorageImpl::SecondaryStorage(storage),
+            config: Default::default(),
+        })
+    }
+
     pub fn verif_catalog(&self) -> RootCatalogRef {
         self.catalog.clone()
     }
